@@ -207,7 +207,15 @@ where
         C: Collect + for<'a> LookupSpan<'a>,
     {
         let mut timestamp = String::new();
-        self.timer.format_time(&mut Writer::new(&mut timestamp))?;
+        // If getting the timestamp failed, don't bail --- like the other
+        // formatters, only bail on formatting errors.
+        if self
+            .timer
+            .format_time(&mut Writer::new(&mut timestamp))
+            .is_err()
+        {
+            timestamp.push_str("<unknown time>");
+        }
 
         #[cfg(feature = "tracing-log")]
         let normalized_meta = event.normalized_metadata();
